@@ -4,10 +4,15 @@ import json, subprocess, sys
 ALL = ["C%02d" % i for i in range(1, 21)]
 E1 = "E1 explicit-state explorer of the real formatting function (in-process)"
 # id -> (engine, level text, level note, technique, design ref)
+TECH = "bounded exhaustive exploration of the real library (explicit-state: every program of the families x every listed configuration x every column width, exact by the width-quotient lemma)"
+NOTE = "full_moon is the definition of parse_s (as in the property); lexer, literal decoders, normal form and census are the checker's own; bounds as listed in the evidence (program families, one comment / one deviation at a time in the quick tier); genuine defects of the unchanged tree are listed by exact input in known_findings/<id>.json"
 CLAIMED = {
- "C05": ("E1", "Every expression of the bounded families (all operator pairs, parenthesis levels, contexts; depth 3 on class representatives in the thorough tier) is formatted at EVERY column width and its operator tree is compared with the generator's own tree; exhaustive within the stated bounds, no sampling.",
-         "full_moon is the definition of parse_s; the generator's precedence parser and the normal form are the checker's own; bounds: depth<=2 (quick) / 3 (thorough), one non-name operand at a time",
-         "bounded exhaustive exploration of the real library (explicit-state, all widths via the width-quotient lemma), O-TREE oracle", "6/C05"),
+ "C01": ("E1", "Every program of the bounded families is formatted under every listed configuration at every column width; each distinct output is re-parsed with the configured syntax and re-lexed by an independent lexer. Exhaustive within the bounds, no sampling.", NOTE, TECH + ", re-parse oracle", "6/C01"),
+ "C02": ("E1", "As C01, with the checker's own semantic normal form (literal values decoded, parentheses erased after parsing, truncation markers kept) and the independent token sequence compared between input and every distinct output.", NOTE, TECH + ", normal-form + token-sequence oracle", "6/C02"),
+ "C03": ("E1", "One comment of each kind in every token gap of every catalogue statement (pairs of gaps in the thorough tier), every width, call_parentheses x collapse; comment multiset (kind, level, normalised text) and code token sequence compared between input and every distinct output.", NOTE, TECH + ", comment census oracle", "6/C03"),
+ "C05": ("E1", "Every expression of the bounded families (all operator pairs, parenthesis levels, contexts; depth 3 on class representatives in the thorough tier) is formatted at EVERY column width and its operator tree is compared with the generator's own tree (own precedence parser); exhaustive within the stated bounds.", NOTE, TECH + ", O-TREE oracle against the generator's own precedence parser", "6/C05"),
+ "C06": ("E1", "Every state reached by the exploration (program, configuration, width) is formatted a second time with the same configuration and must be a fixpoint, byte for byte.", NOTE, TECH + ", second transition must be a self-loop", "6/C06"),
+ "C07": ("E1", "Every transition runs under catch_unwind with a wall-clock bound; outcome must be Ok for text the parser accepts and ParseError for text it rejects; panics, other errors, false successes and blow-ups are violations.", NOTE, TECH + ", outcome oracle on valid and invalid inputs", "6/C07"),
 }
 NOT_YET = "check under construction in this session (engine designed in DESIGN.md, not yet registered)"
 def main():
